@@ -436,10 +436,10 @@ class FiniteDifferenceImplicitThermalSolver:
         source=None,
         T0=None,
         fix_edge=None,
-        rtol=1e-6,
-        atol=1e-2,
-        miter=100,
-        substep=1,
+        rtol=None,
+        atol=None,
+        miter=None,
+        substep=None,
         resetters=None,
     ):
         """
@@ -464,9 +464,16 @@ class FiniteDifferenceImplicitThermalSolver:
           miter       maximum number of nonlinear iterations
           substep     subdivide thermal steps into smaller increments
           resetters   list of reset objects to apply
+
+        The four solver parameters default to the values the solver object
+        was constructed with.
         """
         if resetters is None:
             resetters = []
+        rtol = self.rtol if rtol is None else rtol
+        atol = self.atol if atol is None else atol
+        miter = self.miter if miter is None else miter
+        substep = self.substep if substep is None else substep
 
         temperatures = FiniteDifferenceImplicitThermalProblem(
             tube,
@@ -475,10 +482,10 @@ class FiniteDifferenceImplicitThermalSolver:
             source,
             T0,
             fix_edge,
-            self.rtol,
-            self.atol,
-            self.miter,
-            self.substep,
+            rtol,
+            atol,
+            miter,
+            substep,
             self.verbose,
             self.steady,
         ).solve(resetters)
